@@ -39,7 +39,8 @@ def body1Ok (req : Spec.Smb1Req) (p : Bytes) : Bool :=
   let bcOff := 1 + 2 * wc
   p.length ≥ bcOff + 2 && le16 p bcOff = p.length - (bcOff + 2) &&
   (match req with
-   | .negotiate ds => wc = 17 && le16 p 1 < ds.length && le16 p bcOff ≥ 16
+   | .negotiate ds => wc = 17 && le16 p 1 < ds.length &&
+       (!ds.any Spec.smb1Speaks || Spec.smb1Speaks (ds.getD (le16 p 1) [])) && le16 p bcOff ≥ 16
    | .sessionSetup => wc = 4 && le16 p 7 ≤ le16 p bcOff && le16 p 7 ≥ 1)
 
 theorem smb1ReplyOk_frame (m body : Bytes) (req : Spec.Smb1Req) (h32 : m.length ≥ 32)
@@ -70,7 +71,11 @@ theorem smb1ReplyOk_frame (m body : Bytes) (req : Spec.Smb1Req) (h32 : m.length 
   rw [h1, h2, h3, h4, h5, h6, hlen]
   have hb := hbody
   unfold body1Ok at hb
-  cases req <;> simp at hb ⊢ <;> omega
+  cases req with
+  | negotiate ds =>
+    simp at hb ⊢
+    exact ⟨by omega, hb⟩
+  | sessionSetup => simp at hb ⊢; omega
 
 theorem ssBody_length : smb1SessionSetupReply.length = 218 := by decide +kernel
 
@@ -79,7 +84,9 @@ theorem ssBody_ok : body1Ok .sessionSetup smb1SessionSetupReply = true := by dec
 theorem negBody_length (env : Env) (ds : List Bytes) : (smb1NegotiateReply env ds).length = 373 := by
   simp [smb1NegotiateReply, u16le, u32le, u64le, zeros, negBlob_length]
 
-theorem negBody_ok (env : Env) (ds : List Bytes) (h : smb1DialectIndex ds < ds.length) :
+theorem negBody_ok (env : Env) (ds : List Bytes) (h : smb1DialectIndex ds < ds.length)
+    (h16 : ds.length < 65536)
+    (hs : ds.any Spec.smb1Speaks = true → Spec.smb1Speaks (ds.getD (smb1DialectIndex ds) []) = true) :
     body1Ok (.negotiate ds) (smb1NegotiateReply env ds) = true := by
   have hl := negBody_length env ds
   unfold body1Ok
@@ -87,9 +94,19 @@ theorem negBody_ok (env : Env) (ds : List Bytes) (h : smb1DialectIndex ds < ds.l
   unfold smb1NegotiateReply
   rw [negBlob_length]
   generalize smbTime env = T
-  generalize smb1DialectIndex ds = idx at h
+  generalize smb1DialectIndex ds = idx at h hs
   generalize SECURITY_BLOB_NEG_PROTO = B
+  have hidx : idx % 256 + 256 * (idx % 65536 / 256 % 256) = idx := by omega
   simp [u16le, u32le, u64le, zeros, Spec.le16, Spec.u8, byte_toNat]
-  omega
+  rw [hidx]
+  refine ⟨h, ?_⟩
+  cases hany : ds.any Spec.smb1Speaks
+  · left
+    intro x hx
+    have := List.any_eq_false.mp hany x hx
+    simpa using this
+  · right
+    have := hs hany
+    rwa [List.getD_eq_getElem?_getD] at this
 
 end Masscanned.C17
